@@ -215,3 +215,36 @@ def gen_single_mention(rng, int_regs, float_regs, other_int, other_float, name, 
     b.anti_scratch = False
     b.nstmts = len(parts)
     return b
+
+
+def gen_timed_jump(rng, name):
+    """Jumps with an explicit time (`goto L @ T`, conditional, &&/|| conditions, counting) where T is exactly the time of the target
+    label, so that the script clock never runs ahead of or behind the labels; the not-taken path must keep its own time."""
+    from .gensrc import Body, INT, FLOAT
+    r = rng
+    b = Body()
+    P, Q, C = name(TL.EXTRA_INT[1]), name(TL.EXTRA_INT[2]), name(TL.EXTRA_INT[0])
+    a, bb = r.randint(0, 20), r.randint(1, 20)
+    k1, k2 = r.randint(-2, 2), r.randint(-2, 2)
+    conds = ['(%s > %d) && (%s > %d)' % (P, k1, Q, k2), '(%s > %d) || (%s > %d)' % (P, k1, Q, k2), '%s > %d' % (P, k1), '!(%s > %d)' % (P, k1),
+             '((%s > %d) && (%s > %d)) || (%s == %d)' % (P, k1, Q, k2, P, k2), '(%s > %d) && ((%s > %d) || (%s < %d))' % (P, k1, Q, k2, Q, k1)]
+    form = r.wpick([('plain', 1), ('if', 3), ('unless', 3)])
+    c = r.pick(conds)
+    kind = r.pick(['forward', 'forward', 'backward'])
+    lines = []
+    if kind == 'forward':
+        T = a + bb
+        j = 'goto L @ %d;' % T if form == 'plain' else '%s (%s) goto L @ %d;' % (form, c, T)
+        lines = ['+%d:' % a, 'call_S(1);', j, 'call_S(2);', '+%d:' % bb, 'L:', 'call_S(3);', '+%d:' % r.randint(0, 5), 'call_S(4);']
+    else:
+        T = a
+        guard = '(%s < %d)' % (C, r.randint(1, 3))
+        j = 'if (%s && (%s)) goto L @ %d;' % (guard, c, T) if form != 'unless' else 'unless (!%s || (%s)) goto L @ %d;' % (guard, c, T)
+        lines = ['%s = 0;' % C, '+%d:' % a, 'L:', 'call_S(1);', '+%d:' % bb, '%s += 1;' % C, j, 'call_S(2);', '+%d:' % r.randint(0, 5), 'call_S(3);']
+    b.text = '{\n' + '\n'.join(lines) + '\nins_101();\n}'
+    b.mentioned = {TL.EXTRA_INT[0], TL.EXTRA_INT[1], TL.EXTRA_INT[2]}
+    b.mention_ctx = {}
+    b.shape = ['timed-jump', kind, form, c.count('&&'), c.count('||')]
+    b.anti_scratch = False
+    b.nstmts = len(lines)
+    return b
